@@ -145,6 +145,17 @@ def run(chk):
     if chk.want("R03.7"):
         from ..inherit import inherit
         inherit(chk, "R03.7", "c01", ["R01.2", "R01.3", "R01.4"])
+    chk.rule("R03.8", "the coordinate conversions the queries use are the cell's: to_cartesian / to_fractional are right-multiplications by the direct / "
+                      "inverse matrix for every cell, however it was specified (= C12 R12.5) -- a shortcut for orthogonal cells is wrong for rotated lattice vectors", 4)
+    if chk.want("R03.8"):
+        from ..inherit import inherit
+        inherit(chk, "R03.8", "c12", ["R12.5"])
+    chk.rule("R03.10", "the molecules that serve as centres of molecule_environments are lattice translates of their atoms: the recentring translation is "
+                       "to_cartesian(wrap(fc) - fc) of the exact fractional centre (= C04 R04.3) -- a rounded centre moves the molecule off its sites and "
+                       "the own-atom exclusion no longer finds them", 2)
+    if chk.want("R03.10"):
+        from ..inherit import inherit
+        inherit(chk, "R03.10", "c04", ["R04.3"])
     chk.assume("KD-tree ball queries, tolerance edge cases and tightness of ceil are not decided")
     chk.assume("a Cartesian ball of radius r spans |delta frac_i| <= r * |column i of the inverse matrix| (exact geometry)")
 
